@@ -2,7 +2,12 @@
 import json, os
 root = '/verif/seeded'
 rows = []
-for d in sorted(os.listdir(root), key=lambda x: (x.split('-')[0], int(x.split('-')[1][1:]) if x.split('-')[1][1:].isdigit() else 0)):
+def key(x):
+    p = x.split('-')
+    return (p[0], int(p[1][1:]) if len(p) > 1 and p[1][1:].isdigit() else 0)
+
+
+for d in sorted(os.listdir(root), key=key):
     p = os.path.join(root, d, 'meta.json')
     if os.path.exists(p):
         m = json.load(open(p))
